@@ -59,7 +59,7 @@ func configFor(i int, needAES, needCrypt, needMeta bool) Config {
 		j := i + k
 		c := Config{Version: versions[j%len(versions)], Human: (j/8)%3 == 2, Seekable: (j/24)%2 == 0,
 			Enc: []string{"both", "user", "owner"}[(j/3)%3], Filter: []string{"", "Flate", "ASCIIHex+Flate"}[(j/5)%3],
-			NumMap: (j / 7) % 5, FixedID: (j/11)%2 == 0}
+			NumMap: (j / 7) % 5, FixedID: (j/11)%2 == 0, Pw: (j / 8) % 12}
 		if needAES && c.Version < "1.6" {
 			continue
 		}
@@ -359,6 +359,11 @@ func run(ctx *core.Ctx) error {
 					continue
 				}
 				pw := [][2]string{{"u-secret", "o-secret"}, {"", "o-secret"}, {"u-secret", ""}, {"same", "same"}}[(round+v)%4]
+				if v == 20 && round%3 != 0 {
+					// passwords around the 127 byte limit, as user, as owner, as both
+					a, b := r6Passwords[1+(round*2)%(len(r6Passwords)-1)], r6Passwords[1+(round*2+5)%(len(r6Passwords)-1)]
+					pw = [][2]string{{a, b}, {"", a}, {b, ""}, {a, "o-secret"}}[(round/3)%4]
+				}
 				jobs = append(jobs, docJob(docParams{Version: v, EMD: emd, User: pw[0], Owner: pw[1], Seed: seeds.Int63()}))
 				ndoc++
 			}
